@@ -12,6 +12,7 @@ overrides).  Used by tools/refactor_fuzz.py (all properties) and by the thorough
   T11 second half of a function body extracted into a new module-level helper ("extract method")
   T12 the value of the first call-holding assignment / return extracted into a helper function
   T13 second half of a method body extracted into a new private method of the same class
+  T14 operands of is / is not exchanged, `x == literal` written literal-first;  T15 if/else pairs of returns (or of assignments to one name) folded into a conditional expression
 """
 from __future__ import annotations
 
@@ -400,7 +401,43 @@ def t13_extract_method(fn):
     return True
 
 
-KINDS = {'T13': t13_extract_method, 'T11': t11_extract_tail, 'T12': t12_extract_value, 'T9': t9_swap_assigns, 'T10': t10_else_pass, 'T1': t1_rename, 'T2': t2_invert, 'T3': t3_name_return, 'T4': t4_split_and, 'T6': t6_drop_else, 'T7': t7_add_else,
+def _pure_operand(e):
+    return not any(isinstance(x, (ast.Call, ast.Await, ast.Yield, ast.YieldFrom, ast.NamedExpr, ast.Lambda)) for x in ast.walk(e))
+
+
+def t14_swap_compare(fn):
+    """`a is b` / `a is not b` with the operands exchanged; `x == <literal>` / `x != <literal>` written literal first"""
+    done = False
+    for n in own_nodes(fn):
+        if isinstance(n, ast.Compare) and len(n.ops) == 1 and _pure_operand(n.left) and _pure_operand(n.comparators[0]):
+            op = n.ops[0]
+            if isinstance(op, (ast.Is, ast.IsNot)) or (isinstance(op, (ast.Eq, ast.NotEq)) and isinstance(n.comparators[0], ast.Constant)
+                                                      and isinstance(n.comparators[0].value, (str, int, float, type(None)))
+                                                      and not isinstance(n.left, ast.Constant)):
+                n.left, n.comparators[0] = n.comparators[0], n.left
+                done = True
+    return done
+
+
+def t15_ternary(fn):
+    """if c: return A  else: return B   ->   return A if c else B      (same for a pair of assignments to one name)"""
+    done = False
+    for b in _blocks(fn):
+        for i, st in enumerate(b):
+            if isinstance(st, ast.If) and len(st.body) == 1 and len(st.orelse) == 1:
+                x, y = st.body[0], st.orelse[0]
+                if isinstance(x, ast.Return) and isinstance(y, ast.Return) and x.value is not None and y.value is not None:
+                    b[i] = ast.Return(value=ast.IfExp(test=st.test, body=x.value, orelse=y.value), lineno=st.lineno)
+                    done = True
+                elif isinstance(x, ast.Assign) and isinstance(y, ast.Assign) and len(x.targets) == 1 and len(y.targets) == 1 \
+                        and isinstance(x.targets[0], ast.Name) and isinstance(y.targets[0], ast.Name) \
+                        and x.targets[0].id == y.targets[0].id:
+                    b[i] = ast.Assign(targets=[x.targets[0]], value=ast.IfExp(test=st.test, body=x.value, orelse=y.value), lineno=st.lineno)
+                    done = True
+    return done
+
+
+KINDS = {'T14': t14_swap_compare, 'T15': t15_ternary, 'T13': t13_extract_method, 'T11': t11_extract_tail, 'T12': t12_extract_value, 'T9': t9_swap_assigns, 'T10': t10_else_pass, 'T1': t1_rename, 'T2': t2_invert, 'T3': t3_name_return, 'T4': t4_split_and, 'T6': t6_drop_else, 'T7': t7_add_else,
          'T8': t8_extract_arg}
 
 
